@@ -290,6 +290,19 @@ func (m *m09) Next(t *rapid.T) op09 {
 	if len(m.order) == 1 && k >= 20 {
 		k = 0
 	}
+	if len(m.order) > 1 && rapid.IntRange(0, 1<<20).Draw(t, "replay")%25 == 24 {
+		// the owner (or somebody else) submits the issue request of an existing token once more, field for field as
+		// the token is recorded now
+		tk := m.bySym[m.order[rapid.IntRange(0, len(m.order)-1).Draw(t, "replayed")]]
+		if tk != nil && !tk.native {
+			who := m.userIdx(tk.owner)
+			if who < 0 || rapid.IntRange(0, 3).Draw(t, "replayer") == 0 {
+				who = rapid.IntRange(0, 4).Draw(t, "otherreplayer")
+			}
+			return op09{Kind: "issue", Who: who, Symbol: tk.symbol, MinUnit: tk.minUnit, Name: tk.name, Scale: tk.scale,
+				Initial: tk.initial, Max: tk.max, Mintable: tk.mintable}
+		}
+	}
 	switch {
 	case k < 20: // issue
 		op := op09{Kind: "issue", Who: rapid.SampledFrom([]int{0, 0, 1, 1, 2, 3, 4}).Draw(t, "who")}
@@ -625,6 +638,10 @@ func (m *m09) Apply(op op09) error {
 		case m.bySym[op.Symbol] != nil:
 			v = mustReject("C09/symbol-reused", "symbol already identifies a token")
 			m.cls["symbol-collision-attempt"] = true
+			if x := m.bySym[op.Symbol]; x.minUnit == op.MinUnit && x.name == op.Name && x.scale == op.Scale && x.initial == op.Initial &&
+				x.max == op.Max && x.mintable == op.Mintable && x.owner == who {
+				m.cls["issue-request-replayed-field-for-field"] = true
+			}
 			if m.bySym[op.Symbol].restored {
 				m.cls["issue-colliding-with-restored-token"] = true
 				m.cls["issue-colliding-with-restored-symbol"] = true
